@@ -856,6 +856,20 @@ pub async fn wipeout(w: &mut World, m: &mut Mon, r: &mut R, g: usize, lender: us
         let i = ix::close_account(w.accts[a].key, auth.pubkey(), p);
         let o = w.exec(m, &[i], &[&auth]).await;
         m.r.count(if o.ok() { "scen.indebted_account_close_accepted" } else { "scen.indebted_account_close_rejected" });
+        if o.ok() {
+            // the account is gone (the monitors have judged that); nothing more to do with it here
+            match saved_ca {
+                SavedPx::None => scale_price_any(w, ca, 1e12).await,
+                sp => restore_price(w, ca, sp),
+            }
+            // keep indices stable: a fresh account of the same user takes the closed one's place
+            let g2 = w.accts[a].group;
+            let na = w.add_account(g2, u).await;
+            let moved = w.accts.pop().unwrap();
+            w.accts[a] = moved;
+            let _ = na;
+            return None;
+        }
     }
     let admin = clone_kp(&w.groups[g].admin);
     let i = w.ix_bankruptcy(a, db, admin.pubkey());
@@ -1067,10 +1081,15 @@ pub async fn emode_overlap(w: &mut World, m: &mut Mon, r: &mut R, g: usize, lend
         m.r.count("scen.emode_overlap_tagging_rejected");
         return;
     }
+    // half of the rounds: entries *below* the collateral bank's own weights, listed by both borrowed
+    // banks (legal, and without effect: the better of bank weight and e-mode weight applies at every
+    // requirement level)
+    let low = r.gen_bool(0.5);
+    let az = to_f64(&fx(&w.bank(z).config.asset_weight_init.value));
     let entry = |bank: &Bank, tag: u16| {
         let li = to_f64(&fx(&bank.config.liability_weight_init.value));
         let lm = to_f64(&fx(&bank.config.liability_weight_maint.value));
-        let ci = (li * 0.92).min(lm * 0.94);
+        let ci = if low { az * 0.5 } else { (li * 0.92).min(lm * 0.94) };
         let cm = (ci + 0.01).min(lm * 0.945).max(ci);
         EmodeEntry { collateral_bank_emode_tag: tag, flags: 0, pad0: [0; 5], asset_weight_init: wi(ci), asset_weight_maint: wi(cm) }
     };
@@ -1093,6 +1112,10 @@ pub async fn emode_overlap(w: &mut World, m: &mut Mon, r: &mut R, g: usize, lend
     let by = w.bank(y);
     let mut t = empty;
     t[0] = entry(&by, 3);
+    if low {
+        t[1] = entry(&by, 5);
+        m.r.count("scen.emode_entries_below_bank_weights");
+    }
     let i = ix::configure_bank_emode(gk, ea.pubkey(), w.banks[y].key, 0, t);
     let _ = w.exec(m, &[i], &[&ea]).await;
     // liquidity in both debt banks
